@@ -47,9 +47,10 @@ def sites_st(draw, max_modes=6, max_sites=4, min_sites=1, spins=(1, 2, 3), orbit
     shape = None
     for k, lab in enumerate(labs):
         remaining_sites = len(labs) - k - 1
-        # leave at least one mode for each remaining site
-        budget = left - remaining_sites
-        if budget < 1:
+        # leave at least the smallest possible site for each remaining site
+        minsite = min(o * s for o in orbitals for s in spins)
+        budget = left - remaining_sites * minsite
+        if budget < minsite:
             break
         if homogeneous and shape is not None:
             o, s = shape
@@ -57,6 +58,8 @@ def sites_st(draw, max_modes=6, max_sites=4, min_sites=1, spins=(1, 2, 3), orbit
                 break
         else:
             opts = [(o, s) for o in orbitals for s in spins if o * s <= budget]
+            if not opts:
+                break
             # weight towards spin-1/2
             w = []
             for o, s in opts:
@@ -239,7 +242,7 @@ def terms_st(draw, sites, cplx, min_pieces=1, max_pieces=6, preset_share=0.5, ra
     n = draw(st.integers(min_pieces, max_pieces))
     terms = []
     for _ in range(n):
-        if draw(st.floats(0, 1)) < preset_share:
+        if preset_share >= 1.0 or (preset_share > 0.0 and draw(st.floats(0, 1)) < preset_share):
             terms += draw(preset_piece(sites, cplx, presets))
         else:
             terms += draw(raw_piece(sites, cplx, raw_kinds))
